@@ -77,6 +77,17 @@ def _alias_copy(q, o, view):
     return v
 
 
+def _inplace(q, f):
+    """apply an in-place operation to a private copy and return the receiver: it must then hold what the float program holds"""
+    z = q.clone()
+    f(z)
+    return z
+
+
+def _other_dtype(t):
+    return t.to(torch.float16 if t.dtype == torch.float32 else torch.float32)
+
+
 def catalogue():
     """list of Op. fn(q, other) -> result, applied identically to the quantized operands and to their dequantized values.
     second: None | 'same-scale' | 'diff-scale' | 'plain' (kind of the second operand)"""
@@ -109,6 +120,19 @@ def catalogue():
         Op("alias-detach-then-copy_", a.copy_, lambda q, o: _alias_copy(q, o, lambda z: z.detach()), ["pt8"], "move2", "diff-scale"),
         Op("alias-select-then-copy_", a.copy_, lambda q, o: _alias_copy(q, o, lambda z: z[0]), ["pt8"], "move2", "diff-scale"),
         Op("copy_-into-plain", a.copy_, lambda q, o: o.clone().copy_(q), ["pt8", "ax0"], "move", "plain"),
+        Op("copy_-quantized-other-dtype", a.copy_, lambda q, o: q.clone().copy_(_other_dtype(o)), ["pt8", "ptf8"], "dtype-move", "diff-scale"),
+        Op("copy_-plain-other-dtype", a.copy_, lambda q, o: q.clone().copy_(_other_dtype(o)), ["pt8"], "dtype-move", "plain"),
+        Op("narrow-neg-dim-first", a.slice, lambda q, o: q.narrow(-q.ndim, 0, 1), ["pt8", "ax0", "axm1", "pt8b"], "move"),
+        Op("narrow-neg-dim-last", a.slice, lambda q, o: q.narrow(-1, 1, 1), ["pt8", "ptf8", "ax0", "axm1"], "move"),
+        Op("diff-last", None, lambda q, o: torch.diff(q, dim=-1), ["pt8", "axm1"], "float"),
+        Op("inplace-mul_", None, lambda q, o: _inplace(q, lambda z: z.mul_(0.5)), ["pt8", "ax0", "ptf8"], "rescale"),
+        Op("inplace-imul", None, lambda q, o: _inplace(q, lambda z: z.__imul__(2.0)), ["pt8"], "rescale"),
+        Op("inplace-div_", None, lambda q, o: _inplace(q, lambda z: z.div_(4.0)), ["pt8", "axm1"], "rescale"),
+        Op("inplace-neg_", None, lambda q, o: _inplace(q, lambda z: z.neg_()), ["pt8"], "rescale"),
+        Op("inplace-relu_", None, lambda q, o: _inplace(q, lambda z: z.relu_()), ["pt8", "ax0"], "rescale"),
+        Op("inplace-add_", None, lambda q, o: _inplace(q, lambda z: z.add_(1.0)), ["pt8"], "float"),
+        Op("inplace-clamp_", None, lambda q, o: _inplace(q, lambda z: z.clamp_(-0.5, 0.5)), ["pt8"], "float"),
+        Op("inplace-zero_", None, lambda q, o: _inplace(q, lambda z: z.zero_()), ["pt8", "bits4"], "float"),
         Op("div-scalar", a.div, lambda q, o: q / 3.0, ALL8, "rescale"),
         Op("div-0dim", a.div, lambda q, o: q / torch.tensor(2.5), ["pt8", "ax0"], "rescale"),
         Op("div-tensor", a.div, lambda q, o: q / o, ["pt8", "ax0"], "float", "plain"),
